@@ -100,3 +100,69 @@ Example C11_example_default :
   field_values (default_stack ex_lib)
   = [[VStr (lit "January"); VStr (lit "jan"); VStr (lit "Jan"); VStr (lit "jan # jan")]; []; []].
 Proof. vm_compute. reflexivity. Qed.
+
+(* ---- on documents of the dialect grammar, through the splitter and the default parse stack (Proofs/ResolveDocProofs.v):
+   a bare value naming an @string holds the content of the FIRST @string of that name and is recorded; enclosed
+   values, concatenations (see K8 for the one exception) and bare values naming no @string keep their own content
+   and are not recorded; @string blocks stay where they are with only their enclosing removed *)
+From BP Require Import Model.Lexer Model.Splitter Model.Grammar Model.Pipeline Model.LibAdd Proofs.SplitGrammar Proofs.ResolveDocProofs.
+Theorem C11_doc_fields' : forall d, wf_doc d -> nodup_fields d -> distinct_keys d ->
+  exists out, parse_default (render d) = PVal out /\ List.length out = List.length (d_items d) /\
+  forall i typ hws w1 key w2 t g, nth_error (d_items d) i = Some (IEntry typ hws w1 key w2 t, g) ->
+    exists h' fs', nth_error out i = Some (BEntry h' (lower typ) key fs')
+      /\ raw h' = Some (render_item (IEntry typ hws w1 key w2 t))
+      /\ map fkey fs' = map g_name (etail_fields t)
+      /\ forall j f, nth_error (etail_fields t) j = Some f ->
+         (* (i) a bare piece naming an @string: the content of the FIRST such @string, and the field is listed *)
+         (forall s sv, g_val f = mkgv (PBare s) [] -> first_gstring (d_items d) s = Some sv ->
+            holds fs' j (g_name f) (fst (strip_enclosing (render_value sv))) /\ listed h' (g_name f))
+         (* (ii) enclosed as the resolver sees it, or the whole source text names no @string: own content, not listed *)
+         /\ (enclosed (render_value (g_val f)) \/ first_gstring (d_items d) (render_value (g_val f)) = None ->
+            holds fs' j (g_name f) (fst (strip_enclosing (render_value (g_val f)))) /\ ~ listed h' (g_name f)).
+Proof. exact ResolveDocProofs.C11_doc_fields. Qed.
+Print Assumptions C11_doc_fields'.
+
+Theorem C11_doc_untouched' : forall d, wf_doc d -> nodup_fields d -> distinct_keys d ->
+  exists out, parse_default (render d) = PVal out /\
+  forall i typ hws w1 key w2 t g, nth_error (d_items d) i = Some (IEntry typ hws w1 key w2 t, g) ->
+    exists h' fs', nth_error out i = Some (BEntry h' (lower typ) key fs')
+      /\ forall j f, nth_error (etail_fields t) j = Some f -> untouched d (g_val f) ->
+           holds fs' j (g_name f) (fst (strip_enclosing (render_value (g_val f)))) /\ ~ listed h' (g_name f).
+Proof. exact ResolveDocProofs.C11_doc_untouched. Qed.
+Print Assumptions C11_doc_untouched'.
+
+Theorem C11_doc_strings' : forall d, wf_doc d -> nodup_fields d ->
+  exists out, parse_default (render d) = PVal out /\ List.length out = List.length (d_items d)
+  (* block level: everything that is no live entry is exactly what RemoveEnclosing alone makes of the split's block *)
+  /\ split (render d) = Blocks (rebuild (expected d))
+  /\ (forall i b, nth_error (rebuild (expected d)) i = Some b -> is_entry b = false ->
+        exists b', remove_block b = Enclosing.Val b' /\ nth_error out i = Some b')
+  (* document level *)
+  /\ forall i kw hws w1 name w2 w3 v w4 g,
+       nth_error (d_items d) i = Some (IString kw hws w1 name w2 w3 v w4, g) ->
+       let it := IString kw hws w1 name w2 w3 v w4 in
+       (* the first @string of its name: same position, same key, its own content, only the enclosing removed *)
+       (first_gstring (firstn i (d_items d)) name = None ->
+          exists ln, nth_error out i =
+            Some (BString (mkhdr (Some ln) (Some (render_item it))
+                             [(remove_enclosing_metadata_key, VStr (snd (strip_enclosing (render_value v))))])
+                    name (VStr (fst (strip_enclosing (render_value v))))))
+       (* a later @string of a repeated name: the duplicate wrapper of the split, untouched *)
+       /\ (forall v0, first_gstring (firstn i (d_items d)) name = Some v0 ->
+          exists ln hp, nth_error out i =
+            Some (BDupKey (mkhdr (Some ln) (Some (render_item it)) []) name
+                    (BString hp name (VStr (render_value v0)))
+                    (BString (mkhdr (Some ln) (Some (render_item it)) []) name (VStr (render_value v))))).
+Proof. exact ResolveDocProofs.C11_doc_strings. Qed.
+Print Assumptions C11_doc_strings'.
+
+Theorem C11_concat_refuted' :
+  render cx_doc = lit "@string{a#b = ""X""} @article{k, t = a#b}"
+  /\ wf_doc cx_doc /\ nodup_fields cx_doc /\ distinct_keys cx_doc /\ hash_free_b cx_doc = false
+  /\ match parse_default (render cx_doc) with
+     | PVal [_; BEntry h _ _ [f]] => fval f = VStr (lit "X") /\ dict_get (meta h) resolve_meta_key = Some (VList [VStr (lit "t")])
+     | _ => False
+     end.
+Proof. exact ResolveDocProofs.C11_concat_refuted. Qed.
+Print Assumptions C11_concat_refuted'.
+
